@@ -19,14 +19,14 @@ for be in BACKS:
             'HandledEnum row_execute(fsm_t* fsm, int region_index, int state, event_t evt)',
             'rows_back.spec.h', xform=xf, aux=policy_aux(),
             defines=['HAS_GUARD=%d' % g, 'HAS_ACTION=%d' % a],
-            fire={'SCONST': (2, 2), 'ASSERT': (1, 1), 'TCALL': (4 + a, 4 + a), 'AUX': (16, 16)},
+            fire={'SCONST': (2, 2), 'ASSERT': (1, 1), 'AUX': (16, 16)},
             replay=['order']))
         if g:
             UNITS.append(Unit('%s.%s.check_guard' % (be, st), ['C02', 'C19', 'C09', 'C01'], be,
                 Part(H, ['struct ' + st], "static bool check_guard ( library_sm & fsm , transition_event", expect_anchors=1),
                 '_Bool check_guard(fsm_t* fsm, event_t evt)', 'rows_back.spec.h',
                 xform=back_xform(TEMPL, TV, throwers=['ROW_guard_call'], exc_ret='0'),
-                defines=['HAS_GUARD=1', 'HAS_ACTION=%d' % a], fire={'TCALL': (1, 1)}, replay=['order']))
+                defines=['HAS_GUARD=1', 'HAS_ACTION=%d' % a], replay=['order']))
 
     # internal rows: irow_ family (state-internal, in the transition table) and internal_ family (internal tables)
     IPROPS = ['C02', 'C01', 'C03', 'C13']
@@ -43,8 +43,8 @@ for be in BACKS:
         D = ['HAS_GUARD=%d' % g, 'HAS_ACTION=%d' % a, 'ROW_INTERNAL=1', 'ROW_SM_INTERNAL=%d' % smi]
         UNITS.append(Unit('%s.%s.execute' % (be, nm), IPROPS, be, Part(H, scope, sig, expect_anchors=1),
             'HandledEnum irow_execute(fsm_t* fsm, int region_index, int state, event_t evt)', 'rows_back.spec.h', xform=xf,
-            defines=D, fire={'TCALL': (a, a)}, replay=['order']))
+            defines=D, replay=['order']))
         if g:
             UNITS.append(Unit('%s.%s.check_guard' % (be, nm), ['C02', 'C01'], be, Part(H, scope, CG, expect_anchors=1),
                 '_Bool check_guard(fsm_t* fsm, event_t evt)', 'rows_back.spec.h',
-                xform=back_xform(TEMPL, TV, throwers=['ROW_guard_call'], exc_ret='0'), defines=D, fire={'TCALL': (1, 1)}, replay=['order']))
+                xform=back_xform(TEMPL, TV, throwers=['ROW_guard_call'], exc_ret='0'), defines=D, replay=['order']))
